@@ -363,6 +363,31 @@ def chmodOp (args0 : List String) : String :=
     | _, _ => "bad-op"
   | _ => "bad-op"
 
+/-- `gmvers <gm|auto> <client_version hhhh> <min hhhh>:<max hhhh>`: a GMSSL peer that accepts whatever version the
+    ServerHello carries (so nothing but the server stops the handshake) against a GMSSL-only / auto-switch server
+    with the given `Config.MinVersion` / `MaxVersion` (0000: unset).  The hello is otherwise the genuine GMSSL hello;
+    the server completes iff it answers with a ServerHello from the GMSSL code, which `dispatchLim` allows at
+    version 0x0101 only (`Props.C15Limits.gm_path_version`). -/
+def gmversOp (args : List String) : String :=
+  match args with
+  | [mode, vs, lim] =>
+    let md : Option Mode := if mode = "gm" then some .gmOnly else if mode = "auto" then some .auto else none
+    match md, hexList? vs 4, lim.splitOn ":" with
+    | some md, some [v], [a, b] =>
+      (match hexList? a 4, hexList? b 4 with
+      | some [x], some [y] =>
+        let (_, s0, c0) := genuineHello "gm"
+        match helloAnswerLim (cfgMin x) (cfgMax y) md false v s0 c0 with
+        | .reject => "error reject"
+        | .failure => "error nosuite"
+        | .fallback => "error alert:86"
+        | .serverHello w su =>
+          -- a ServerHello comes from the GMSSL code (the hello lists GM suites only); the peer cooperates
+          (if w = versionGMSSL then "done" else "error") ++ s!" sh:{hex4 w}:{hex4 su}"
+      | _, _ => "bad-op")
+    | _, _, _ => "bad-op"
+  | _ => "bad-op"
+
 /-- `shmod <gm|tls> <offer|-> <vers:hhhh | suite:hhhh | comp:hh>`: the client is configured with the offered
     suites (`-`: the defaults); the genuine ServerHello is what a gmtls server of the same kind answers to its
     hello (`helloAnswer`); one field of it is rewritten.  rejected:<alert> = the client aborts on the hello
@@ -463,6 +488,7 @@ def handshakeDispatch (toks : List String) : Option String :=
   | "hsflight" :: rest => some (HS.hsflightOp rest)
   | "hsout" :: rest => some (HS.hsoutOp rest)
   | "chmod" :: rest => some (HS.chmodOp rest)
+  | "gmvers" :: rest => some (HS.gmversOp rest)
   | "shmod" :: rest => some (HS.shmodOp rest)
   | "shmodv" :: rest => some (HS.shmodvOp rest)
   | "chext" :: rest => some (HS.chextOp rest)
